@@ -64,6 +64,10 @@ type fileState struct {
 	vol   []byte // content as the process sees it
 	old   []byte // durable content, zero-extended / cut to len(vol)
 	dirty []int  // sector numbers in which vol differs from old
+	// durLen: length of the durable content (0 for a file never synced); when the
+	// file has grown since (vol longer), the sectors behind durLen do not exist on
+	// the disk unless they were written: see shortTailCut
+	durLen int
 }
 
 // dirtyRef names one unsynced sector of the whole disk.
@@ -114,6 +118,7 @@ func (s *session) scan() ([]fileState, []dirtyRef) {
 			if ino, ok := inoOf(p); ok {
 				if dur, ok := s.dur[ino]; ok {
 					copy(fs.old, dur)
+					fs.durLen = min(len(dur), len(vol))
 				}
 			}
 			for sec := 0; sec*sector < len(vol); sec++ {
@@ -139,7 +144,20 @@ func (s *session) scan() ([]fileState, []dirtyRef) {
 
 // materialise writes the crash image in which the dirty sectors flagged in
 // lost keep their old (durable) content and all others their volatile one.
-func materialise(root string, files []fileState, refs []dirtyRef, lost []bool) error {
+// shortTailCut: a file that grew past its durable length and whose last sectors
+// were lost may come back *shorter* (the sectors were never allocated, the size
+// never updated) instead of zero-filled: the length at which such an image ends,
+// or -1 when the lost sectors of f do not form a tail behind its durable length.
+func shortTailCut(f *fileState, lostSecs map[int]bool) int {
+	n := (len(f.vol) + sector - 1) / sector
+	cut := -1
+	for sec := n - 1; sec >= 0 && lostSecs[sec] && sec*sector >= f.durLen; sec-- {
+		cut = sec * sector
+	}
+	return cut
+}
+
+func materialise(root string, files []fileState, refs []dirtyRef, lost []bool, short bool) error {
 	for _, sub := range []string{"wal", "snap"} {
 		if err := os.MkdirAll(filepath.Join(root, sub), 0o750); err != nil {
 			return err
@@ -162,6 +180,15 @@ func materialise(root string, files []fileState, refs []dirtyRef, lost []bool) e
 					hi = len(b)
 				}
 				copy(b[lo:hi], f.old[lo:hi])
+			}
+			if short {
+				set := map[int]bool{}
+				for _, sec := range ls {
+					set[sec] = true
+				}
+				if cut := shortTailCut(f, set); cut >= 0 {
+					b = b[:cut]
+				}
 			}
 		}
 		if err := os.WriteFile(filepath.Join(root, f.sub, f.name), b, 0o600); err != nil {
